@@ -80,6 +80,12 @@ k("c08_priority_most_nested_bounded", "dedupe::sort_by_priority [MostNested] + F
   cls="bounded", bound="3 sub-groups of one path each, nesting 1 or 2")
 k("c08_priority_top_bottom_bounded", "dedupe::sort_by_priority [Top, Bottom]", module="dedupe__c08", t=600,
   cls="bounded", bound="3 sub-groups of one path each")
+TIME_PRIOS = ["newest", "oldest", "most_recently_modified", "least_recently_modified", "most_recently_accessed", "least_recently_accessed"]
+for _n in TIME_PRIOS:
+    k("c08_priority_%s_bounded" % _n, "dedupe::sort_by_priority [%s] + FileSubGroup::{created, modified, accessed} + util::try_sort_by_key" % _n,
+      module="dedupe__c08", t=600, cls="bounded", bound="2 sub-groups of one path each, times 0..2 s")
+k("c08_subgroup_times_bounded", "dedupe::FileSubGroup::{created, modified, accessed} + util::{min_result, max_result}", module="dedupe__c08", t=900,
+  cls="bounded", bound="one sub-group of 2 paths, times 0..2 s")
 k("c08_path_should_keep_bounded", "dedupe::should_keep", module="dedupe__c08b", t=900,
   cls="bounded", bound="<= 2 patterns per option, one two-component path; Pattern matchers arbitrary and independent")
 k("c08_path_may_drop_bounded", "dedupe::may_drop", module="dedupe__c08b", t=900,
@@ -209,6 +215,7 @@ PROPS = {
     "C08": dict(
         kani=["c08_subgroup_keep_drop_bounded", "c08_priority_least_nested_bounded", "c08_priority_most_nested_bounded",
               "c08_priority_top_bottom_bounded", "c08_path_should_keep_bounded", "c08_path_may_drop_bounded",
+              "c08_subgroup_times_bounded"] + ["c08_priority_%s_bounded" % _n for _n in TIME_PRIOS] + [
               "c06_is_prefix_of_compares_components_bounded"],
         verus=["partition_tail", "subgroup_grouping"],
         prefixes=["C08.", "C02.partition_tail.", "C06.group.", "C06.is_prefix_of."],
